@@ -113,37 +113,173 @@ package kernel
 
 //@ -- RawWork: the work of a node as the code computes it from the stored (lead, sign) counts: lead*1e8*120/100 (+ sign*1e8 when sign > 0)
 //@ spec RawWork(lead mathint, sign mathint) mathint = lead * 100000000 * 120 / 100 + (sign > 0 ? sign * 100000000 : 0)
-//@ -- Shape: the four-piece function of kernel/mint.go (a = average work), with its floors exactly as coded
-//@ spec Shape(a mathint, w mathint) mathint = w >= 7 * a ? 2 * a : (w >= a ? w / 6 + 5 * a / 6 : (w <= a / 7 ? a / 7 : w))
-//@ -- Share: what a node with shaped work s receives of base b when the shaped works add up to t
-//@ spec Share(s mathint, b mathint, t mathint) mathint = s * b / t
+//@ -- Shape: the four-piece function of kernel/mint.go (a = average work), with its floors exactly as coded.
+//@ -- Share: what a node with shaped work s receives of base b when the shaped works add up to t.
+//@ -- Both are function SYMBOLS with a definitional axiom (not macros), so that the lemmas below can be instantiated by pattern.
+//@ uninterp Shape(a mathint, w mathint) mathint
+//@ axiom forall a, w mathint :: {Shape(a, w)} Shape(a, w) == (w >= 7 * a ? 2 * a : (w >= a ? w / 6 + 5 * a / 6 : (w <= a / 7 ? a / 7 : w)))
+//@ uninterp Share(s mathint, b mathint, t mathint) mathint
+//@ axiom forall s, b, t mathint :: {Share(s, b, t)} Share(s, b, t) == s * b / t
+//@ -- Cap(a, n) = 2*a*n, as a sum: the bound of n shaped works
+//@ rec Cap(a mathint, n int) mathint = n <= 0 ? 0 : Cap(a, n - 1) + 2 * a
+//@ lemma CapClosed(a mathint, n mathint)
+//@   property C25
+//@   induct n
+//@   requires n >= 0
+//@   ensures [closed] Cap(a, n) == 2 * a * n
+//@   pattern Cap(a, n)
 
 //@ -- "a node with more work never receives less": through the four pieces …
 //@ lemma ShapeMono(a mathint, w1 mathint, w2 mathint)
 //@   property C25
 //@   requires a > 0 && w1 >= w2 && w2 >= 0
 //@   ensures [mono] Shape(a, w1) >= Shape(a, w2)
+//@   pattern Shape(a, w1), Shape(a, w2)
 
 //@ lemma ShapeBounds(a mathint, w mathint)
 //@   property C25
 //@   requires a >= 7 && w >= 0
 //@   ensures [lower] Shape(a, w) >= a / 7 && a / 7 >= 1
 //@   ensures [upper] Shape(a, w) <= 2 * a
+//@   pattern Shape(a, w)
 
 //@ -- … and through the floor of s * base / total
 //@ lemma ShareMono(s1 mathint, s2 mathint, b mathint, t mathint)
 //@   property C25
 //@   requires t > 0 && b >= 0 && s1 >= s2 && s2 >= 0
-//@   ensures [mono] Share(s1, b, t) >= Share(s2, b, t)
+//@   ensures [mono] Share(s1, b, t) >= Share(s2, b, t) && Share(s2, b, t) >= 0
+//@   pattern Share(s1, b, t), Share(s2, b, t)
 
-//@ -- the distributed amounts never add up to more than the base: floor(x/t) + floor(y/t) <= floor((x+y)/t)
-//@ lemma ShareSumStep(x mathint, y mathint, t mathint)
+//@ -- the distributed amounts never add up to more than the base: floor(x/t) + floor(y/t) <= floor((x+y)/t) …
+//@ lemma ShareSum(s1 mathint, s2 mathint, s3 mathint, b mathint, t mathint)
 //@   property C25
-//@   requires t > 0 && x >= 0 && y >= 0
-//@   ensures [floor-sum] x / t + y / t <= (x + y) / t
+//@   requires t > 0 && b >= 0 && s1 >= 0 && s2 >= 0 && s3 == s1 + s2
+//@   ensures [floor-sum] Share(s1, b, t) + Share(s2, b, t) <= Share(s3, b, t)
+//@   pattern Share(s1, b, t), Share(s2, b, t), Share(s3, b, t)
 
-//@ -- every share is positive when base >= 15 per node: s >= a/7, t <= 2*a*n, a >= 90
+//@ -- … and all shaped works together receive exactly the base
+//@ lemma ShareAll(b mathint, t mathint)
+//@   property C25
+//@   requires t > 0 && b >= 0
+//@   ensures [all] Share(t, b, t) == b && Share(0, b, t) == 0
+//@   pattern Share(t, b, t)
+
+//@ -- every share is positive when the base is at least 15 per node: s >= a/7, t <= 2*a*n, a >= 90
 //@ lemma SharePositive(a mathint, s mathint, b mathint, t mathint, n mathint)
 //@   property C25
-//@   requires a >= 90 && n >= 1 && s >= a / 7 && t >= s && t <= 2 * a * n && b >= 15 * n
+//@   uses CapClosed
+//@   requires a >= 90 && n >= 1 && s >= a / 7 && t >= s && t <= Cap(a, n) && b >= 15 * n
 //@   ensures [positive] Share(s, b, t) >= 1
+//@   pattern Share(s, b, t), Cap(a, n)
+
+//@ -- the equal split of the first day: n * floor(b/n) <= b, and floor(b/n) >= 1 when b >= n
+//@ lemma EqualSplit(b mathint, n mathint, k mathint)
+//@   property C25
+//@   requires n >= 1 && b >= 0 && 0 <= k && k <= n
+//@   ensures [bounded] k * (b / n) <= b
+//@   ensures [positive] b >= n ==> b / n >= 1
+
+//@ -- the average of valid-2 works of at least 1e8 each is at least 1e8
+//@ lemma AvgLower(x mathint, v mathint)
+//@   property C25
+//@   requires v >= 1 && x >= v * 100000000
+//@   ensures [avg] x / v >= 100000000
+
+// ───────────── the store as seen by the distribution (ASSUMED) ─────────────
+
+//@ -- StoreLead / StoreSign: the lead and sign counters the store holds for (node id, day). Uninterpreted: "arbitrary counts".
+//@ uninterp StoreLead(id crypto.Hash, day mathint) mathint
+//@ uninterp StoreSign(id crypto.Hash, day mathint) mathint
+
+//@ -- storage.BadgerStore.ListNodeWorks: a fresh map holding, for every requested id, the two uint64 counters of (id, day); reads only.
+//@ assume func (s storage.Store) ListNodeWorks(cids, day)
+//@   modifies nothing
+//@   ensures err == nil ==> result0 != nil
+//@   ensures err == nil ==> forall k int :: {cids[k]} 0 <= k && k < len(cids) ==>
+//@       has(result0, cids[k]) && result0[cids[k]][0] == StoreLead(cids[k], day) && result0[cids[k]][1] == StoreSign(cids[k], day) &&
+//@       0 <= StoreLead(cids[k], day) && StoreLead(cids[k], day) < 18446744073709551616 &&
+//@       0 <= StoreSign(cids[k], day) && StoreSign(cids[k], day) < 18446744073709551616
+
+//@ -- storage.BadgerStore.ListAggregatedRoundSpaceCheckpoints: every value of the returned map is `&common.RoundSpace{…}`; reads only.
+//@ assume func (s storage.Store) ListAggregatedRoundSpaceCheckpoints(cids)
+//@   modifies nothing
+//@   ensures err == nil ==> forall id crypto.Hash :: {result0[id]} has(result0, id) ==> result0[id] != nil
+
+//@ -- storage.BadgerStore.ReadNodeRoundSpacesForBatch: every element is `&common.RoundSpace{…}`; reads only.
+//@ assume func (s storage.Store) ReadNodeRoundSpacesForBatch(nodeId, batch)
+//@   modifies nothing
+//@   ensures err == nil ==> forall k int :: 0 <= k && k < len(result0) ==> result0[k] != nil
+
+//@ func (node *Node) ListRoundSpaces
+//@   property C25
+//@   requires node != nil && !isnil(node.persistStore)
+//@   modifies nothing
+//@   ensures [elems] err == nil ==> forall id crypto.Hash :: forall k int :: has(result0, id) && 0 <= k && k < len(result0[id]) ==> result0[id][k] != nil
+//@   loop 0 invariant forall id crypto.Hash :: forall k int :: has(spaces, id) && 0 <= k && k < len(spaces[id]) ==> spaces[id][k] != nil
+
+//@ func (node *Node) validateWorksAndSpacesAggregator
+//@   property C25
+//@   requires node != nil && !isnil(node.persistStore)
+//@   modifies nothing
+
+// ───────────── distribution ─────────────
+
+//@ -- WorkDay: the day whose counters are read, as the code computes it: uint32(day) - 1 (both steps wrap)
+//@ spec WorkDay(ts uint64) mathint = ((ts / OneDay) % 4294967296 - 1) % 4294967296
+//@ -- RawAt: the work of accepted node k on day d, from the stored counters
+//@ spec RawAt(acc []*CNode, d mathint, k int) mathint = RawWork(StoreLead(acc[k].IdForNetwork, d), StoreSign(acc[k].IdForNetwork, d))
+//@ -- SumShaped: Shape(a, work of node 0) + … + Shape(a, work of node n-1);  SumWork: the amounts held by the first n result entries
+//@ rec SumShaped(acc []*CNode, d mathint, a mathint, n int) mathint = n <= 0 ? 0 : SumShaped(acc, d, a, n - 1) + Shape(a, RawAt(acc, d, n - 1))
+//@ rec SumWork(ms []*CNodeWork, n int) mathint = n <= 0 ? 0 : SumWork(ms, n - 1) + val(ms[n - 1].Work)
+//@ recframe SumWork
+//@ reclimit SumWork, SumShaped, Cap
+//@ -- MintOf: result entry k is a new object carrying the identity of accepted node k
+//@ spec MintOf(ms []*CNodeWork, acc []*CNode, k int) bool = ms[k] != nil && fresh(ms[k]) && allocated(ms[k]) &&
+//@     ms[k].IdForNetwork == acc[k].IdForNetwork
+
+//@ func (node *Node) distributeKernelMintByWorks
+//@   property C25
+//@   uses ShapeMono, ShapeBounds, ShareMono, ShareSum, ShareAll, SharePositive, EqualSplit, AvgLower
+//@   requires NodeRep(node) && !isnil(node.persistStore) && val(base) >= 0 && len(accepted) >= 1
+//@   requires forall k int :: 0 <= k && k < len(accepted) ==> accepted[k] != nil && !fresh(accepted[k])
+//@   panics when timestamp / OneDay < node.Epoch / OneDay
+//@   modifies nothing
+//@   unreachable return@33   -- `avg.Sign() == 0`: the average of valid-2 >= 3 works of at least 1e8 each is never zero
+//@   ensures [len] err == nil ==> len(result0) == len(accepted)
+//@   ensures [elems] err == nil ==> forall k int :: 0 <= k && k < len(accepted) ==> MintOf(result0, accepted, k)
+//@   ensures [distinct] err == nil ==> forall a, b int :: 0 <= a && a < b && b < len(accepted) ==> result0[a] != result0[b]
+//@   ensures [sum] err == nil ==> SumWork(result0, len(result0)) <= val(base)
+//@   ensures [nonneg] err == nil ==> forall k int :: 0 <= k && k < len(accepted) ==> val(result0[k].Work) >= 0
+//@   ensures [positive] err == nil && val(base) >= 15 * len(accepted) ==> forall k int :: 0 <= k && k < len(accepted) ==> val(result0[k].Work) >= 1
+//@   ensures [monotone] err == nil ==> forall i, j int :: 0 <= i && i < len(accepted) && 0 <= j && j < len(accepted) &&
+//@       RawAt(accepted, WorkDay(timestamp), i) >= RawAt(accepted, WorkDay(timestamp), j) ==> val(result0[i].Work) >= val(result0[j].Work)
+//@   -- loop 0: the result entries are new, pairwise distinct objects carrying the identities of the accepted nodes
+//@   loop 0 invariant len(mints) == len(accepted) && len(cids) == len(accepted) && fresh(mints) && fresh(cids)
+//@   loop 0 invariant forall k int :: {accepted[k]} {mints[k]} {cids[k]} 0 <= k && k <= rangeindex ==> MintOf(mints, accepted, k) && cids[k] == accepted[k].IdForNetwork
+//@   loop 0 invariant forall a, b int :: 0 <= a && a < b && b <= rangeindex ==> mints[a] != mints[b]
+//@   -- loop 1 (first day): equal split
+//@   loop 1 invariant forall k int :: 0 <= k && k <= rangeindex ==> val(mints[k].Work) == val(base) / len(accepted)
+//@   loop 1 invariant [unfold] SumWork(mints, rangeindex + 1) == SumWork(mints, rangeindex) + (rangeindex >= 0 ? val(mints[rangeindex].Work) : 0)
+//@   loop 1 invariant [sum] SumWork(mints, rangeindex + 1) == (rangeindex + 1) * (val(base) / len(accepted))
+//@   -- loop 2: raw works and their statistics
+//@   loop 2 invariant [store] forall k int :: {accepted[k]} 0 <= k && k < len(accepted) ==> has(works, accepted[k].IdForNetwork) &&
+//@       works[accepted[k].IdForNetwork][0] == StoreLead(accepted[k].IdForNetwork, WorkDay(timestamp)) &&
+//@       works[accepted[k].IdForNetwork][1] == StoreSign(accepted[k].IdForNetwork, WorkDay(timestamp)) &&
+//@       0 <= StoreLead(accepted[k].IdForNetwork, WorkDay(timestamp)) && 0 <= StoreSign(accepted[k].IdForNetwork, WorkDay(timestamp))
+//@   loop 2 invariant [raw] forall k int :: {mints[k]} 0 <= k && k <= rangeindex ==> val(mints[k].Work) == RawAt(accepted, WorkDay(timestamp), k)
+//@   loop 2 invariant 0 <= valid && valid <= rangeindex + 1
+//@   loop 2 invariant valid == 0 ==> val(minW) == 0 && val(maxW) == 0 && val(totalW) == 0
+//@   loop 2 invariant valid >= 1 ==> val(minW) >= 100000000 && val(maxW) >= val(minW) && val(totalW) >= val(maxW) + (valid - 1) * 100000000
+//@   loop 2 invariant valid >= 2 ==> val(totalW) >= val(maxW) + val(minW) + (valid - 2) * 100000000
+//@   -- loop 3: shaping
+//@   loop 3 invariant forall k int :: 0 <= k && k <= rangeindex ==> val(mints[k].Work) == Shape(val(avg), RawAt(accepted, WorkDay(timestamp), k))
+//@   loop 3 invariant forall k int :: rangeindex < k && k < len(accepted) ==> val(mints[k].Work) == RawAt(accepted, WorkDay(timestamp), k)
+//@   loop 3 invariant val(totalW) == SumShaped(accepted, WorkDay(timestamp), val(avg), rangeindex + 1)
+//@   loop 3 invariant val(totalW) >= 0 && val(totalW) <= Cap(val(avg), rangeindex + 1) && (rangeindex >= 0 ==> val(totalW) >= val(avg) / 7)
+//@   -- loop 4: shares
+//@   loop 4 invariant forall k int :: 0 <= k && k <= rangeindex ==>
+//@       val(mints[k].Work) == Share(Shape(val(avg), RawAt(accepted, WorkDay(timestamp), k)), val(base), val(totalW))
+//@   loop 4 invariant forall k int :: rangeindex < k && k < len(accepted) ==> val(mints[k].Work) == Shape(val(avg), RawAt(accepted, WorkDay(timestamp), k))
+//@   loop 4 invariant [unfold] SumWork(mints, rangeindex + 1) == SumWork(mints, rangeindex) + (rangeindex >= 0 ? val(mints[rangeindex].Work) : 0)
+//@   loop 4 invariant [shaped-nonneg] SumShaped(accepted, WorkDay(timestamp), val(avg), rangeindex + 1) >= 0
+//@   loop 4 invariant [sum] SumWork(mints, rangeindex + 1) <= Share(SumShaped(accepted, WorkDay(timestamp), val(avg), rangeindex + 1), val(base), val(totalW))
